@@ -188,7 +188,8 @@ ZERO_BANKS = [
     ("no_size_no_outp", ["#bankdef b { #addr 0x100 }"]),
     ("fill", ["#bankdef b\n{\n    #addr 0\n    #size 4\n    #outp 0\n    #fill\n}"]),
     ("fill_second_bank", ["#bankdef a\n{\n    #addr 0\n    #size 2\n    #outp 0\n    #fill\n}", "#d8 1", "#bankdef b\n{\n    #addr 0x10\n    #size 2\n    #outp 16\n    #fill\n}"]),
-    ("default_bank_after_bankdef", ["#bankdef b { #addr 0x100, #size 0x10, #outp 0 }", "#d8 0xaa", "#bank #global_bankdef"]),
+    ("default_bank_before_bankdef", [], ["#bankdef late { #addr 0x100, #size 4, #outp 64 }", "#d8 0xaa"]),
+    ("default_bank_before_bankdef_no_outp", ["#d8 1"], ["#bankdef late { #addr 0x100, #size 4 }", "#res 1"]),
     ("default_bank_only", []),
     ("end_of_sized_bank", ["#bankdef b { #addr 0, #size 2, #outp 0 }", "#d16 0xbbcc"]),
     ("end_of_sized_bank_no_outp", ["#bankdef b { #addr 0, #size 2 }", "#res 2"]),
@@ -212,10 +213,12 @@ def zero_size_family():
     bank, very end of a sized bank, past the end, unaligned) x labels around it; once alone and once followed by a byte."""
     out = []
     for (iname, item, bits) in ZERO_ITEMS:
-        for (bname, pre) in ZERO_BANKS:
+        for bank in ZERO_BANKS:
+            bname, pre = bank[0], bank[1]
+            post = bank[2] if len(bank) > 2 else []
             for (lname, lb, la) in ZERO_LABELS:
                 for tail in ((), ("#d8 0x77",), (item,)):
-                    src = ZERO_RULES + "\n".join(list(pre) + lb + [item] + la + list(tail)) + "\n"
+                    src = ZERO_RULES + "\n".join(list(pre) + lb + [item] + la + list(tail) + list(post)) + "\n"
                     out.append(("gen:zero/%s/%s/labels_%s/tail_%d" % (iname, bname, lname, len(tail) and (1 if tail[0] != item else 2)),
                                 {"main.asm": src.encode("utf-8")}, "main.asm"))
     return out
